@@ -36,6 +36,9 @@ enum Op {
 
 fn alphabet() -> Vec<Op> {
     let mut v = vec![];
+    // a drastic change of P (diagonal x 0.1, off-diagonal x 0.001 -- still PSD): a factorisation that silently kept
+    // the old entries can no longer be rescued by iterative refinement
+    v.push(Op::Whole(Comp::P, 3));
     for c in [Comp::P, Comp::A] {
         v.extend([Op::Whole(c, 1), Op::Whole(c, 2), Op::Matrix(c), Op::Partial1(c), Op::Partial2(c), Op::Empty(c), Op::WrongLen(c), Op::OutOfRange(c), Op::Mismatch(c)]);
     }
@@ -152,6 +155,13 @@ fn set_values(orig: &[f64], comp: Comp, which: u8, diag: &[bool]) -> Vec<f64> {
         .enumerate()
         .map(|(k, &v)| match (comp, which) {
             (Comp::P, 1) => v * 1.5,
+            (Comp::P, 3) => {
+                if diag[k] {
+                    v * 0.1
+                } else {
+                    v * 0.001
+                }
+            }
             (Comp::P, _) => {
                 if diag[k] {
                     v + 1.0
